@@ -752,6 +752,11 @@ func CapabilitiesForThisVersion() *Capabilities {
 }
 
 func fromOPABuiltin(builtin ast.Builtin) *Builtin {
+	if builtin.Decl == nil {
+		// e.g. a built-in function added with capabilities.plus where no decl was provided
+		return &Builtin{Decl: Decl{Args: []string{}}}
+	}
+
 	funcArgs := builtin.Decl.FuncArgs().Args
 	args := make([]string, len(funcArgs))
 
